@@ -13,6 +13,12 @@ spec/C12/CfgArea.tla     the area as a state machine: Template / LoadConfig / Se
        DERIVED size bit-field (XMCD header.configurationBlockSize) and / or a CONTROL bit-field that decides which registers exist (XMCD optionSize, option
        word OptionSize / AcTimingMode); CfgAreaMC explores it on the small layouts (lemmas ExportedSizeHolds, AnnouncedSizeIgnored), CfgAreaGen prints it
        and generates case steps, sched_sizectrl runs every case on every such area, CfgAreaTrace classifies what was really loaded (COV / APPL lines).
+ command-line route: the tools the property names as observation points (pfr, ifr, nxpimage bca | fcf | tz | bootable-image fcb | xmcd, nxpfuses,
+       nxpmemcfg) are driven through click's test runner in the workers (c12_cli.py, schedule sched_tool): the template a tool writes, the binary a
+       tool writes from a configuration FILE (its `type` spelled as SPSDK's own files spell it / in lower / upper case; with and without Root of
+       Trust keys given as -sf files or as a certificate-block / MBI configuration) and the configuration a tool writes from a binary FILE are
+       further observations of the SAME events (Template / Export / GetConfig): the existing clauses decide (ExportFaithful, ComputedHold,
+       BytesStable - the tool's bytes equal the library's for the same state -, Rotkh - against hashlib over the pool keys -, ConfigRoundTrip ...).
 """
 import copy
 import hashlib
@@ -27,6 +33,7 @@ from lib.par import pmap
 from lib.verdict import Verdict
 
 import c12_areas as A
+import c12_cli as CLI
 
 PROP = "C12"
 SPEC = "C12"
@@ -446,6 +453,16 @@ class Runner:
         self.tpl_settings = None
         self.rot_expect = None    # (group index, bytes) written through the ROTKH path since the last export
         self.leaves = [i for i, x in enumerate(lay["regs"], 1) if x["kind"] == "leaf"]
+        # the command-line route (c12_cli): the tools of the area, and what the harness knows about the files it hands to them
+        self.tool = None
+        self.synced = False       # the current object is the object LoadConfig made of self.cfg (nothing was written since)
+        self.parsed = False       # the current object is the object Parse made of self.bin
+        self.rot_cli = None       # {"how": "sf" | "rotcfg" | "mbicfg", "files": [...]} - the key files of the pending ROTKH write
+
+    def cli(self):
+        if self.tool is None:
+            self.tool = CLI.tool_for(self.ad, os.path.join(scratch(), "c12-cli", f"{os.getpid()}-{sha(self.ad.key())}"))
+        return self.tool
 
     def ev_post(self, ev):
         struct, post = project(self.ad, self.obj, self.lay)
@@ -474,14 +491,20 @@ class Runner:
             except Exception as e:  # noqa: BLE001 - every refusal is an observation; the spec decides
                 self.obj, ev["ok"], ev["err"] = None, False, f"{type(e).__name__}: {e}"[:300]
             self.settings = None
+            self.synced = self.parsed = False
             ev["struct"] = self.ev_post(ev)
             if not ev["struct"] and lay.get("first_mismatch"):
                 ev["mismatch"] = lay["first_mismatch"]
             return ev
         if a == "Template":
             ev.update(ok=False, yaml=False, schema=False)
+            self.synced = False
             try:
-                text = ad.template()
+                if s.get("route") == "cli":
+                    ev["route"] = "cli"
+                    text = self.cli().template()
+                else:
+                    text = ad.template()
                 ev["ok"] = bool(text)
                 cfg = A.yaml_load(text)
                 ev["yaml"] = True
@@ -496,14 +519,27 @@ class Runner:
             return ev
         if a == "GetConfig":
             ev.update(ok=False, yaml=False, schema=False)
+            self.synced = False
             try:
-                text = ad.config_text(self.obj)
+                if s.get("route") == "cli":
+                    # the tool parses the FILE and writes the configuration in one call: the current object must be what Parse made of that file
+                    if not self.parsed or self.bin is None:
+                        raise Machinery("schedule error: GetConfig through the tool must follow Parse")
+                    ev["route"] = "cli"
+                    bpath = self.cli().p("in.bin")
+                    with open(bpath, "wb") as f:
+                        f.write(self.bin)
+                    text = self.cli().parse(bpath)
+                else:
+                    text = ad.config_text(self.obj)
                 ev["ok"] = True
                 self.cfg = A.yaml_load(text)
                 ev["yaml"] = True
                 if s.get("check"):
                     ad.check(copy.deepcopy(self.cfg))
                 ev["schema"] = True
+            except Machinery:
+                raise
             except Exception as e:  # noqa: BLE001
                 ev["err"] = f"{type(e).__name__}: {e}"[:300]
                 self.cfg = None
@@ -517,6 +553,7 @@ class Runner:
                 ev["ok"] = True
             except Exception as e:  # noqa: BLE001
                 self.obj, ev["ok"], ev["err"] = None, False, f"{type(e).__name__}: {e}"[:300]
+            self.synced, self.parsed = bool(ev["ok"]), False
             self.ev_post(ev)
             return ev
         if a == "SetValues":
@@ -530,6 +567,7 @@ class Runner:
             ev["shown"] = [list(x) for _, x in writes]
             if not writes:
                 return ev           # the layout has no target of this class: no event
+            self.synced = self.parsed = False
             try:
                 st = settings_of(writes)
                 if ad.incremental:
@@ -547,12 +585,30 @@ class Runner:
             seal = bool(s.get("seal")) and bool(lay.get("seal"))
             ev.update(seal=seal, ok=False, size=-1, gaps=False, eqprev=False, rotkh=True, crc=True, bin=[[-1] if x["kind"] == "leaf" else [] for x in lay["regs"]])
             try:
-                kw = {}
-                if seal:
-                    kw["add_seal"] = True
-                if self.rot_kw:
-                    kw.update(self.rot_kw)
-                data = ad.export(self.obj, **kw)
+                if s.get("route") == "cli":
+                    # the tool loads the configuration FILE and exports in one call: the current object must be what LoadConfig made of that
+                    # configuration (s["pair"]: ... and the library has just written the same Root of Trust keys into it)
+                    if not (self.synced or s.get("pair")) or self.cfg is None:
+                        raise Machinery("schedule error: Export through the tool must follow LoadConfig")
+                    ev["route"], ev["type"] = "cli", s.get("type", "asis")
+                    tool = self.cli()
+                    cpath = CLI.write_config(tool, self.cfg, s.get("type", "asis"))
+                    sf, rot = (), None
+                    if self.rot_cli:
+                        ev["rot"] = {"how": self.rot_cli["how"], "files": [os.path.basename(x) for x in self.rot_cli["files"]]}
+                        if self.rot_cli["how"] == "sf":
+                            sf = tuple(self.rot_cli["files"])
+                        else:
+                            rot = CLI.write_rot_config(tool, self.rot_cli["files"], self.rot_cli["how"])
+                    data = tool.export(cpath, seal=seal, sf=sf, rot=rot)
+                else:
+                    kw = {}
+                    if seal:
+                        kw["add_seal"] = True
+                    if self.rot_kw:
+                        kw.update(self.rot_kw)
+                        self.synced = False
+                    data = ad.export(self.obj, **kw)
                 ev["ok"] = True
                 ev["size"] = len(data)
                 vals, gaps = A.decode_binary(lay, data, self.leaves)
@@ -566,18 +622,23 @@ class Runner:
                 if ad.kind == "xmcd" and not s.get("nocrc"):
                     ev["crc"] = int.from_bytes(self.obj.crc, "big") == crc32_mpeg2(data)
                 self.bin = data
+                self.parsed = False
                 ev["hex"] = data.hex() if len(data) <= 64 else data[:64].hex() + "..."
+            except Machinery:
+                raise
             except Exception as e:  # noqa: BLE001
                 ev["err"] = f"{type(e).__name__}: {e}"[:300]
-            self.rot_expect, self.rot_kw = None, None
+            self.rot_expect, self.rot_kw, self.rot_cli = None, None, None
             return ev
         if a == "Parse":
             ev.update(ok=False, verified=False)
+            self.synced = self.parsed = False
             try:
                 if self.bin is None:
                     raise A.Refused("no binary to parse")
                 self.obj = ad.parse(self.bin)
                 ev["ok"] = True
+                self.parsed = True
                 ev["verified"] = bool(ad.verify(self.obj))
                 self.settings = None
                 if not ad.incremental:
@@ -605,7 +666,20 @@ class Runner:
         # (a group narrower than its declared width is written all the same: the hash must still be found in the binary over the full declared width)
         width = g["width"]
         mode = s.get("mode", "bytes")
-        if mode == "keys" and lay.get("rot_type") == "cert_block_21":
+        self.rot_cli = None
+        if mode == "pool":
+            # keys of the committed pool: the same ordered key list goes to the library as key objects and to the tool as files; the
+            # documented value of the field is computed with hashlib (c12_cli.rot_digest)
+            cls, names = CLI.pick_keys(lay.get("rot_type"), width, s, r)
+            if not names:
+                return []
+            digest = CLI.rot_digest(lay["rot_type"], cls, names)
+            if len(digest) * 8 > width:
+                return []
+            self.rot_kw = {"keys": CLI.spsdk_keys(cls, names)}
+            forms = [r.choice(CLI.FORMS) for _ in names]
+            self.rot_cli = {"how": s.get("how", "sf"), "files": [CLI.key_file(cls, n, f) for n, f in zip(names, forms)]}
+        elif mode == "keys" and lay.get("rot_type") == "cert_block_21":
             from cryptography.hazmat.primitives.asymmetric import ec
 
             curve = ec.SECP384R1() if (width >= 384 and s.get("big", True)) else ec.SECP256R1()
@@ -655,8 +729,30 @@ def run_trace(ad, lay, sched, r, tid, lay_ref):
             # logged as the write followed by the export, the state after the write is observed after the call
             writes = run.rotkh_writes(s) if ad.has_binary else []
             if not writes or i + 1 >= len(steps) or steps[i + 1]["a"] != "Export":
-                run.rot_kw, run.rot_expect = None, None
+                run.rot_kw, run.rot_expect, run.rot_cli = None, None, None
                 i += 1
+                continue
+            if steps[i + 1].get("route") == "cli":
+                # the command-line route: the LIBRARY writes the hash of the keys into the current object and exports (the state after the
+                # write is observed on that object), then the TOOL is given the configuration the object was loaded from and the same keys
+                # as files: SetValues, Export (library), Export (tool) - the spec demands the same state and the same bytes of both
+                if not run.synced:
+                    raise Machinery("schedule error: a Root of Trust export through the tool must follow LoadConfig")
+                expect, rcli = run.rot_expect, run.rot_cli
+                run.rot_cli = None
+                ev_lib = run.step({"a": "Export", "seal": steps[i + 1].get("seal")})
+                ev = {"a": "SetValues", "w": [w for w, _ in writes], "shown": [list(x) for _, x in writes], "ok": ev_lib["ok"]}
+                if not ev_lib["ok"]:
+                    ev["err"] = ev_lib.get("err", "")
+                run.ev_post(ev)
+                evs += [ev, ev_lib]
+                i += 2
+                if not ev_lib["ok"]:
+                    break
+                run.rot_expect, run.rot_cli = expect, rcli
+                evs.append(run.step(dict(steps[i - 1], pair=True)))
+                if not evs[-1]["ok"]:
+                    break
                 continue
             ev2 = run.step(steps[i + 1])
             ev = {"a": "SetValues", "w": [w for w, _ in writes], "shown": [list(x) for _, x in writes], "ok": ev2["ok"]}
@@ -702,6 +798,36 @@ SCHED_SWEEP_SHORT = [{"a": "NewObject"}] + [s for vc in ("ones", "alt", "rnd") f
     {"a": "SetValues", "cls": "field", "val": vc, "n": 12}, {"a": "Export"}, {"a": "Parse"}, {"a": "Export"}, {"a": "GetConfig"}, {"a": "LoadConfig"}, {"a": "Export"})]
 
 
+def sched_tool(kind, seal, short=False):
+    """The command-line route of one kind of area, built from what its tools offer (c12_cli.TOOLS): the template the tool writes is
+    loaded; every binary is exported by the library AND by the tool from the same configuration file (same state, same bytes - clauses
+    ExportFaithful / ComputedHold / BytesStable), with the `type` of the configuration spelled as SPSDK's own files spell it and in
+    lower case; the binary goes back through the parser and the tool that writes the configuration, which is loaded again; then values,
+    seal, and (areas that take Root of Trust keys) keys of the committed pool given as -sf files / as a certificate-block or MBI
+    configuration (-e) under every spelling of `type`."""
+    tool = CLI.TOOLS[kind]
+    types = ("asis", "lower") if tool.type_key else ("asis",)
+    st = [{"a": "NewObject"}, {"a": "Template", "route": "cli"}, {"a": "LoadConfig"}]
+    if "export" not in tool.has:
+        return st + [{"a": "GetConfig", "check": True}, {"a": "LoadConfig"}]
+
+    def both(tps, sl=False):
+        return [{"a": "Export", "seal": sl}] + [{"a": "Export", "seal": sl, "route": "cli", "type": t} for t in tps]
+
+    back = [{"a": "Parse"}, {"a": "GetConfig", "check": True, **({"route": "cli"} if "parse" in tool.has else {})}, {"a": "LoadConfig"}]
+    if short:         # (areas whose objects are slow: one pass through every tool)
+        return st + both(types[:1]) + back + [{"a": "Export"}]
+    st += both(types) + back + both(types[-1:])
+    st += [{"a": "SetValues", "cls": "field", "val": "rnd", "n": 6, "edge": True}, {"a": "SetValues", "cls": "compfield", "val": "mix", "n": 3}, {"a": "Export"}] + back + both(types[::-1])
+    if seal:
+        st += both(types[:1], True)
+    if tool.takes_keys:
+        for n, how, tp in ((1, "sf", "asis"), (1, "sf", "lower"), (4, "sf", "asis"), (2, "rotcfg", "asis"), (3, "mbicfg", "lower"), (2, "sf", "upper"), (3, "rotcfg", "lower")):
+            st += [{"a": "LoadConfig"}, {"a": "SetValues", "cls": "rotkh", "mode": "pool", "nkeys": n, "how": how}, {"a": "Export", "route": "cli", "type": tp}]
+    return st
+
+
+SLOW_TOOL_KINDS = ("xmcd", "fcb")
 LEVEL_ORDER = ("min", "max", "mid")
 
 
@@ -766,8 +892,10 @@ def layout_job(ident):
         lay = A.make(ident).layout()
         A.tla_layout(lay)
         cf = ctrl_fields(lay)
+        # class of the area for the command-line route: the Root of Trust type and the width of the ROTKH field / the sub-area
+        cc = f"{lay.get('rot_type')}/{lay['regs'][lay['rotkh'] - 1]['width'] if lay.get('rotkh') else 0}" if ident["kind"] == "cmpa" else ident["sub"]
         return {"area": ident, "hash": rich_hash(lay), "sizectrl": bool(cf) or bool((lay.get("sizefld") or {}).get("r")),
-                "nmenu": max([len(ctrl_menu(lay, c, f)) for c, f in cf] or [0])}
+                "nmenu": max([len(ctrl_menu(lay, c, f)) for c, f in cf] or [0]), "cliclass": cc, "seal": bool(lay.get("seal"))}
     except Exception as e:  # noqa: BLE001
         return {"area": ident, "error": f"layout: {type(e).__name__}: {e}"[:300]}
 
@@ -876,8 +1004,10 @@ def strip_event(e):
 def finding_key(t, rej, names):
     matched, length, evname, clause, reg = rej
     a = t["area"]
-    key = f"C12/{a['kind']}/{a['family']}/{a['rev']}/{a['sub'] or '-'}/{evname}/{clause}"
     ev = t["ev"][matched] if matched < len(t["ev"]) else t["ev"][-1]
+    if ev.get("route") == "cli":
+        evname += "@tool"          # the observation came from a command-line tool, not from the library call
+    key = f"C12/{a['kind']}/{a['family']}/{a['rev']}/{a['sub'] or '-'}/{evname}/{clause}"
     if clause == "TemplateYaml" and ev.get("cause"):
         key += "/" + ev["cause"]
     if clause == "Structure" and ev.get("mismatch"):
@@ -939,6 +1069,48 @@ def demand_case_coverage(v, results, rej):
     v.extra["size_ctrl_areas"] = len(want)
 
 
+TOOL_KEY_ROUTES = ("sf/asis", "sf/lower", "sf/upper", "rotcfg/asis", "rotcfg/lower", "mbicfg/lower")
+
+
+def demand_tool_reach(v, results, rej, kinds):
+    """The command-line route was really taken: for every kind of area, the tools it has were called (template / export / parse) in a trace
+    that ran to its end, and the tool that takes Root of Trust keys got them in every way x spelling of `type` the schedule names.  Traces
+    that were rejected (a finding stops a trace) are exempt."""
+    stats = {}
+    for x in results:
+        for t in x.get("traces", []):
+            if not t["id"].endswith("#tool"):
+                continue
+            st = stats.setdefault(x["area"]["kind"], {"areas": 0, "rejected": 0, "Template": 0, "Export": 0, "GetConfig": 0, "keys": {}, "types": {}})
+            st["areas"] += 1
+            st["rejected"] += t["id"] in rej
+            for e in t["ev"]:
+                if e.get("route") != "cli":
+                    continue
+                st[e["a"]] += 1
+                if e["a"] == "Export":
+                    st["types"][e["type"]] = st["types"].get(e["type"], 0) + 1
+                    if e.get("rot"):
+                        k = f"{e['rot']['how']}/{e['type']}"
+                        st["keys"][k] = st["keys"].get(k, 0) + 1
+    for kind, tool in CLI.TOOLS.items():
+        if kind not in kinds:
+            continue
+        st = stats.get(kind)
+        if st is None:
+            raise Machinery(f"vacuous: no area of kind {kind} went through its command-line tools")
+        if st["areas"] == st["rejected"]:
+            continue
+        lack = [a for a, op in (("Template", "template"), ("Export", "export"), ("GetConfig", "parse")) if op in tool.has and not st[a]]
+        if tool.type_key and "export" in tool.has:
+            lack += [f"type:{tp}" for tp in ("asis", "lower") if not st["types"].get(tp)]
+        if tool.takes_keys:
+            lack += [k for k in TOOL_KEY_ROUTES if not st["keys"].get(k)]
+        if lack:
+            raise Machinery(f"vacuous: the command-line route of kind {kind} never reached {lack}")
+    v.extra["cli_route"] = {k: x for k, x in sorted(stats.items())}
+
+
 def check_registers_copy(v):
     from lib.common import SPEC as SPECDIR
 
@@ -984,6 +1156,7 @@ def gen_schedules(v, tiny_file, num, depth):
 
 
 def run(tier):
+    os.environ.setdefault("SPSDK_DEBUG_LOGGING_DISABLED", "1")      # (the tools would append to a debug log in the user's home directory)
     import_spsdk()
     v = Verdict(PROP, tier)
     check_registers_copy(v)
@@ -1057,11 +1230,25 @@ def run(tier):
         if hashes[idx]["sizectrl"] and (is_rep or (tier != "quick" and not slow)):
             jobs.append({"area": ident, "nolayout": True, "scheds": [("sizectrl", sched_sizectrl(gen_schedules.cases, tier if is_rep else "quick", slow))]})
             n_sizectrl += 1
+    # the command-line route: the representatives of every class (kind x Root of Trust type x ROTKH width / sub-area) in the quick tier - the
+    # first one by family name, latest revisions first -, every representative in the thorough tier; tools without a revision option work on the latest revision
+    n_tool, seen_cli = 0, set()
+    for idx, (a, ident) in sorted(enumerate(zip(areas, idents)), key=lambda x: (x[1][0]["kind"], not x[1][0]["latest"], x[1][0]["family"], x[1][0]["rev"], x[1][0]["sub"])):
+        if json.dumps(ident, sort_keys=True) not in reps or (CLI.needs_latest(a["kind"]) and not a["latest"]):
+            continue
+        cc = (a["kind"], hashes[idx]["cliclass"] if a["kind"] != "xmcd" else a["sub"].split("/")[-1])       # (XMCD, quick tier: one area per configuration type)
+        if tier == "quick" and cc in seen_cli:
+            continue
+        seen_cli.add(cc)
+        jobs.append({"area": ident, "nolayout": True, "scheds": [("tool", sched_tool(a["kind"], hashes[idx]["seal"], short=a["kind"] in SLOW_TOOL_KINDS and tier == "quick"))]})
+        n_tool += 1
+    v.extra["cli_route_areas"] = n_tool
     # heavy kinds first, so that the pool is balanced
     weight = {"fuses": 9, "cmpa": 6, "cfpa": 6, "tz": 5, "romcfg": 4, "fcb": 3, "xmcd": 3, "bca": 2, "fcf": 2, "cmactable": 2, "memcfg": 1}
     jobs.sort(key=lambda j: -weight.get(j["area"]["kind"], 1) * (10 if len(j["scheds"]) > 1 or j.get("nolayout") else 1) * (2 if j.get("nolayout") else len(j["scheds"])))
     results = pmap(area_job, jobs, chunksize=1)
-    say(f"[C12] real runs done {v.timer.s()}s ({n_full} areas with the full schedules, {len(jobs) - n_full - n_sizectrl} alias instantiations, {n_sizectrl} size / control case runs)")
+    say(f"[C12] real runs done {v.timer.s()}s ({n_full} areas with the full schedules, {len(jobs) - n_full - n_sizectrl - n_tool} alias instantiations, {n_sizectrl} size / control case runs, "
+        f"{n_tool} command-line runs)")
     errs = [x for x in results if "error" in x]
     if errs:
         raise Machinery(f"layout extraction failed for {len(errs)} areas, e.g. {errs[0]}")
@@ -1070,7 +1257,7 @@ def run(tier):
     v.extra["cpu_s_real_runs"] = round(sum(x["wall"] for x in results), 1)
     bykind = {}
     for x in results:
-        k = x["area"]["kind"] + ("(sizectrl)" if any(t.get("cov") for t in x["traces"]) else "" if len(x["traces"]) > 2 else "(alias)")
+        k = x["area"]["kind"] + ("(sizectrl)" if any(t.get("cov") for t in x["traces"]) else "(tool)" if any(t["id"].endswith("#tool") for t in x["traces"]) else "" if len(x["traces"]) > 2 else "(alias)")
         bykind[k] = round(bykind.get(k, 0) + x["wall"], 1)
     v.extra["cpu_s_by_kind"] = bykind
     say(f"[C12] cpu {v.extra['cpu_s_real_runs']}s {bykind}, slowest: {v.extra['slowest_areas_s']}")
@@ -1097,6 +1284,7 @@ def run(tier):
     say(f"[C12] MC done {v.timer.s()}s: {v.cov['states']} states, {v.cov['transitions']} transitions (GEN included)")
     report(v, results, rej, names)
     demand_case_coverage(v, results, rej)
+    demand_tool_reach(v, results, rej, kinds)
     for x in results:
         for t in x["traces"]:
             if t["id"] not in rej and t["id"].endswith("#values") and x["area"]["kind"] in ("cmpa", "xmcd", "fuses", "tz", "memcfg"):
@@ -1114,10 +1302,15 @@ def run(tier):
         "trace per area; areas with a size bit-field or a control bit-field (XMCD, option words) additionally run the case space TLC enumerates (SizeCtrlCases: announced size "
         "equal / too small / too large x control level none / some / all conditional registers, consecutive cases flip the level, then the announcement left stale while the "
         "control bit-field changes, then every boundary value of the control bit-field) - the trace form classifies every configuration that was really loaded and the run "
-        "fails as machinery unless every case that exists on the layout was executed; distinct_nontrivial = distinct traces (area x schedule) in which at least one state was transported through the real code (SetValues / LoadConfig / Parse)")
-    v.extra["checker_cmd"] = "tlc2.TLC CfgAreaMC (lemmas), CfgAreaGen -simulate (schedules), CfgAreaTrace (batch trace validation, one JVM per chunk)"
+        "fails as machinery unless every case that exists on the layout was executed; COMMAND-LINE ROUTE (schedule `tool`): per class (kind x Root of Trust type x width of "
+        "ROTKH / sub-area; XMCD quick: configuration type) the first representative of the latest revision in the quick tier, every representative in the thorough tier: "
+        "template by the tool -> load; every export by the library AND by the tool from the same configuration file with `type` as written by SPSDK and in lower case "
+        "(same state, same bytes); binary -> parser -> configuration by the tool -> load; values; seal (-a); CMPA: 1..4 keys of the committed pool as -sf files "
+        "(public key / private key / certificate, PEM / DER) and as certificate-block / MBI configuration (-e) x type as written / lower / upper case, ROTKH compared "
+        "with hashlib over the public numbers - the run fails as machinery unless every tool operation and every (key route, spelling) was executed; distinct_nontrivial = distinct traces (area x schedule) in which at least one state was transported through the real code (SetValues / LoadConfig / Parse)")
+    v.extra["checker_cmd"] = "tlc2.TLC CfgAreaMC (lemmas), CfgAreaGen -simulate (schedules), CfgAreaTrace (batch trace validation, one JVM per chunk; library and tool observations alike)"
     v.extra["trusted_base"] = ["TLC", "spec/C12/Registers.tla + CfgArea.tla", "database files read directly (json / PyYAML)", "PyYAML safe_load as YAML judge", "hashlib",
-                               "cryptography (EC key generation only)", "bit-serial CRC-32/MPEG-2 in the harness", "documented binary sizes of the reference manuals"]
+                               "cryptography (EC key generation, reading the public numbers of the pool keys /verif/keys/rot)", "click.testing.CliRunner (in-process tool calls)", "bit-serial CRC-32/MPEG-2 in the harness", "documented binary sizes of the reference manuals"]
     v.assumptions += ASSUMPTIONS
     return v.finish()
 
@@ -1140,6 +1333,11 @@ ASSUMPTIONS = [
     "documented sizes: PFR pages 512, ROMCFG 304, CMAC table 128, BCA 64, FCF 16, FCB 512 bytes, TrustZone 4 bytes per preset register (reference manuals); gap fill value "
     "must be one constant byte, which one is not asserted",
     "registers whose JSON description overlaps another register (CMAC table) are asserted through byte stability of the export only, not per register",
+    "command-line route: `pfr generate-binary` is called with --ignore (the brick-condition rules of PFRC are no part of the property); the `type` of a PFR / IFR "
+    "configuration is respelled in lower and upper case only (SPSDK writes CMPA / CFPA / ROMCFG / CMACTABLE, its own test data use cmpa; the mixed-case `CMACTable` of "
+    "the -s option is refused by `ifr generate-binary` as a configuration value - not settled, not asserted); tools without a revision option (nxpimage bca / fcf / "
+    "bootable-image fcb / xmcd, nxpmemcfg) are driven for the latest revision only; `ifr generate-binary` is given -f (it demands the deprecated option); option words "
+    "are read from the text `nxpmemcfg export` prints; nxpfuses has a template tool only (the others need a device)",
 ]
 
 
@@ -1215,6 +1413,14 @@ def canary(v, tiny_tla, tiny_file, behs):
     t["ev"][k2 + 1]["post"][sf["r"] - 1] = sorted([x for x in hdr if not fl["off"] <= x < fl["off"] + fl["width"]] + [x + fl["off"] for x in announced])
     t["cov"] = False
     bads.append((t, "SetValues"))
+    # the command-line route: the same state exported a second time (the tool after the library) - accepted when the bytes are the same,
+    # rejected when they are not
+    good3 = json.loads(json.dumps(good))
+    good3["ev"].insert(i2 + 1, dict(json.loads(json.dumps(evs[i2])), eqprev=True))
+    good3["id"] = 60
+    t = json.loads(json.dumps(good3))
+    t["ev"][i2 + 1]["eqprev"] = False
+    bads.append((t, "BytesStable"))
     for k, (t, _) in enumerate(bads, 1):
         t["id"] = k
     # layout clauses: the small layouts are consistent, a copy with a group declared wider than its sub-registers is not
@@ -1223,7 +1429,7 @@ def canary(v, tiny_tla, tiny_file, behs):
     bad_lay["regs"][gi]["declw"] = bad_lay["regs"][gi]["subsw"] + 32
     cfile = write_layouts(tiny_tla + [bad_lay], "c12-canary-layouts.json")
     lay_traces = [{"id": 100 + k, "lay": k + 1, "ev": [{"a": "Layout"}]} for k in range(len(tiny_tla) + 1)]
-    rej, cres = tlc.tv(SPEC, "CfgAreaTrace", [good, good2] + [t for t, _ in bads] + lay_traces, env={"LAYOUT_FILE": cfile}, heap="4g")
+    rej, cres = tlc.tv(SPEC, "CfgAreaTrace", [good, good2, good3] + [t for t, _ in bads] + lay_traces, env={"LAYOUT_FILE": cfile}, heap="4g")
     check_tv_output(cres, rej)
     appl = sorted((x[1], x[2]) for x in cres.tuples("APPL") if x[0] == 50)
     covd = sorted((x[1], x[2], x[3]) for x in cres.tuples("COV") if x[0] == 50)
@@ -1235,7 +1441,8 @@ def canary(v, tiny_tla, tiny_file, behs):
     if got != want or lays != [(100 + len(tiny_tla), "GroupsConsistent")]:
         raise Machinery(f"canary failed: rejected {rej}, layout findings {lays}; expected exactly {want} and GroupsConsistent on the inconsistent copy only")
     v.extra["canary"] = ("a behaviour generated by the spec (states included) is accepted as a trace; the same trace with one flipped state bit / a wrong export size / "
-                         "one flipped bit of the decoded binary / a false gap fact / an announced wrong size that survives in the object is rejected at clauses " + ", ".join(want.values()) +
+                         "one flipped bit of the decoded binary / a false gap fact / an announced wrong size that survives in the object / a second export of the same state (the tool after "
+                         "the library) with other bytes is rejected at clauses " + ", ".join(want.values()) +
                          "; the configurations of a generated behaviour that write the size / control bit-fields are classified by the trace form exactly as generated")
 
 
